@@ -289,14 +289,40 @@ pub fn run_random(tr: &mut Trace, run: u64, seed: u64, prof: Profile) -> RunStat
     let horizon_ms: u64 = if tampered_run { 120_000 } else { 3_600_000 + (backlog as u64 * 1000) / 23 };
     let tail_start = p.t_ms();
     p.log_probe = false;
+    let mut cut = false;
+    let mut iter: u64 = 0;
+    let mut probe_bytes: u64 = 0;
+    for phase in 0..2 {
+    if phase == 1 {
+        // ---- capacity probe: once everything has been acknowledged the peer's whole receive allocation is available
+        // again, so one Reliable packet as large as that allocation must go through (sender and receiver accounting
+        // have both returned to zero); then a second fair tail
+        if p.dead || !st.quiesced || cut || tampered_run {
+            break;
+        }
+        st.quiesced = false;
+        let mut any = false;
+        for e in 0..2usize {
+            let len = p.cfg.rx_alloc[1 - e];
+            if (e == 0 || both_dirs) && (len <= 150_000 || r.chance(1, 4)) {
+                p.send(tr, e, r.below(nch) as u8, SendMode::Reliable, len);
+                st.sent += 1;
+                any = true;
+                probe_bytes += len as u64;
+            }
+        }
+        if !any {
+            st.quiesced = true;
+            break;
+        }
+    }
+    let phase_start = p.t_ms();
     let mut quiet_rounds = 0;
     let mut quiet_since: Option<u64> = None;
     let tail_lines0 = tr.lines;
-    let mut cut = false;
-    let mut iter: u64 = 0;
     while !p.dead {
-        let el = p.t_ms() - tail_start;
-        if el > horizon_ms {
+        let el = p.t_ms() - phase_start;
+        if el > horizon_ms + (probe_bytes * 1000) / 23 {
             break;
         }
         if tr.lines - tail_lines0 > 40_000 {
@@ -328,6 +354,7 @@ pub fn run_random(tr: &mut Trace, run: u64, seed: u64, prof: Profile) -> RunStat
             quiet_since = None;
         }
         let _ = iter;
+    }
     }
     if !p.dead {
         for e in 0..2 {
